@@ -414,7 +414,8 @@ namespace sim
           const bool euler = r.chance(0.5);
           for (int i = 0; i < n; ++i)
             {
-              defl.push_back(r.chance(0.2) ? (r.chance(0.5) ? 0.0 : 1.0) : r.real(0, 1));
+              // 0 and 1 are the documented extremes; tiny deflections put all orientations of a point close together
+              defl.push_back(r.chance(0.2) ? (r.chance(0.5) ? 0.0 : 1.0) : (r.chance(0.2) ? r.real(1e-5, 2e-3) : r.real(0, 1)));
               basis.push_back(euler ? nums({r.real(0, 360), r.real(0, 180), r.real(0, 360)}) : rotation_matrix(r));
             }
           defl_record = defl;
@@ -552,12 +553,15 @@ namespace sim
     }
 
     bool g_polar_gentle = false;
+    double g_planet_scale = 1.0;
 
     std::string segment(Rng &r, bool fault, double &length, double &thick_max, std::array<double, 2> &angles, double prev_angle)
     {
       KV kv;
-      length = g_polar_gentle ? r.real(250e3, 600e3) : r.real(40e3, 400e3);
-      const double t1 = r.real(20e3, 150e3), t2 = r.chance(0.5) ? t1 : r.real(20e3, 150e3);
+      // on a small planet slabs are smaller too
+      const double planet = g_planet_scale;
+      length = planet * (g_polar_gentle ? r.real(250e3, 600e3) : r.real(40e3, 400e3));
+      const double t1 = planet * r.real(20e3, 150e3), t2 = r.chance(0.5) ? t1 : planet * r.real(20e3, 150e3);
       thick_max = std::max(t1, t2);
       // dips anywhere in (0,180): mostly ordinary slabs, sometimes steep or overturned ones
       auto dip = [&]() -> double
@@ -590,6 +594,7 @@ namespace sim
     std::string line_feature(Rng &r, const Frame &f, bool fault, int idx, SlabMeta *meta, bool simple_models, double min_depth_forced = -1)
     {
       KV kv;
+      g_planet_scale = f.spherical ? std::min(1.0, f.radius / 3e6) : 1.0;
       const std::string family = fault ? "fault" : "subducting plate";
       kv.push_back({"model", str(family)});
       kv.push_back({"name", str(family + " " + std::to_string(idx))});
@@ -699,7 +704,9 @@ namespace sim
       f.spherical = r.chance(0.45);
       if (f.spherical)
         {
-          f.radius = r.chance(0.7) ? 6371000.0 : r.real(1e6, 7e6);
+          // mostly the Earth, otherwise any planet down to a few hundred kilometres (worlds of one process need not
+          // live on the same planet)
+          f.radius = r.chance(0.7) ? 6371000.0 : (r.chance(0.35) ? r.real(6e5, 1e6) : r.real(1e6, 7e6));
           f.cx = r.real(-120, 120);
           f.cy = r.real(-40, 40);
           if (allow_extreme && r.chance(0.25))
@@ -750,6 +757,9 @@ namespace sim
         kv.push_back({"thermal expansion coefficient", num(r.real(2e-5, 4e-5))});
       if (r.chance(0.2))
         kv.push_back({"specific heat", num(r.real(1000, 1400))});
+      // every world-level constant is a property of its world: worlds of one process rarely share all of them
+      if (r.chance(0.4))
+        kv.push_back({"thermal diffusivity", num(r.real(0.4e-6, 3e-6))});
       if (r.chance(0.2))
         kv.push_back({"gravity model", obj({{"model", str("uniform")}, {"magnitude", num(r.real(5, 12))}})});
       return "";
